@@ -11,15 +11,16 @@
 #include "cstl/rbtree.h"
 
 #include <string.h>
+#include <stdlib.h>
 
-enum { T_INSERT = 1, T_FIND, T_ERASE, T_FOREACH, T_CLEAR, T_SWAP, T_HEIGHT };
+enum { T_INSERT = 1, T_FIND, T_ERASE, T_FOREACH, T_CLEAR, T_SWAP, T_HEIGHT, T_HUGE };
 
 static const char *t_opname(int k)
 {
     switch (k) {
     case T_INSERT: return "insert"; case T_FIND: return "find"; case T_ERASE: return "erase";
     case T_FOREACH: return "foreach"; case T_CLEAR: return "clear"; case T_SWAP: return "swap";
-    case T_HEIGHT: return "height";
+    case T_HEIGHT: return "height"; case T_HUGE: return "huge";
     }
     return "?";
 }
@@ -124,7 +125,7 @@ static int cmp_key(const void *a, const void *b, void *p)
             sim_violation("C01/reentrant_lookup/compare/aux-tree", "a lookup in an independent tree, made from inside a comparison callback, returned the wrong element");
         CB_LEAVE();
     }
-    return (x->key > y->key) - (x->key < y->key);
+    return sim_cmp((x->key > y->key) - (x->key < y->key));
 }
 
 static struct telem *new_elem(int key, int t)
@@ -142,11 +143,26 @@ struct vlog { const struct telem *e; int ord; };
 static struct vlog vlogv[MAXLOG];
 static int nvlog, v_stop_at, v_stop_val;
 
+static int nested_count;
+static int nested_visit(const void *e, cstl_bintree_visit_order_t ord, void *p) { (void)e; (void)ord; (void)p; nested_count++; return 0; }
+static int cur_walk_rev;
+
 static int visit_cb(const void *e, cstl_bintree_visit_order_t ord, void *p)
 {
     CB_ENTER();
     int r = 0;
     (void)p;
+    if (reentrant && (nvlog % 3) == 1) {
+        /* the visit function walks ANOTHER tree in the opposite direction (and asks for its height): a traversal
+         * that keeps its direction in shared state loses its way */
+        size_t hmin, hmax;
+        nested_count = 0;
+        g_inlib = 1;
+        (void)cstl_rbtree_foreach(&auxtree, nested_visit, NULL, cur_walk_rev ? CSTL_BINTREE_FOREACH_DIR_FWD : CSTL_BINTREE_FOREACH_DIR_REV);
+        cstl_rbtree_height(&auxtree, &hmin, &hmax);
+        g_inlib = 0;
+        if (nested_count < 64) sim_violation("C01/reentrant_walk/foreach/aux-tree", "a nested traversal of an independent 64-element tree made %d visits", nested_count);
+    }
     if (nvlog < MAXLOG) { vlogv[nvlog].e = e; vlogv[nvlog].ord = (int)ord; }
     nvlog++;
     if (v_stop_at > 0 && nvlog == v_stop_at) r = v_stop_val;
@@ -264,7 +280,7 @@ static void check_foreach(int t, int rev, int stop_at, int stop_val)
 {
     struct cstl_bintree *b = BT(t);
     static int r; int expect_n, expect_r = 0, i, mids = 0, prev = 0, have = 0;
-    nvlog = 0; v_stop_at = stop_at; v_stop_val = stop_val;
+    nvlog = 0; v_stop_at = stop_at; v_stop_val = stop_val; cur_walk_rev = rev;
     if (is_rb(t)) TRY(r = cstl_rbtree_foreach(&rb[t - 2], visit_cb, NULL, rev ? CSTL_BINTREE_FOREACH_DIR_REV : CSTL_BINTREE_FOREACH_DIR_FWD));
     else TRY(r = cstl_bintree_foreach(b, visit_cb, NULL, rev ? CSTL_BINTREE_FOREACH_DIR_REV : CSTL_BINTREE_FOREACH_DIR_FWD));
     if (g_aborted) VIOL(t, "abort", "foreach aborted");
@@ -310,6 +326,109 @@ static void clear_cb(void *obj, void *priv)
 }
 
 static void tick(int t) { if (mt[t].since_clear >= 0 && mt[t].since_clear < 100) mt[t].since_clear++; }
+
+/* ------------------------------------------------------------ very large trees */
+
+static size_t huge_cleared; static struct telem *huge_pool; static size_t huge_np;
+static void huge_clear_cb(void *obj, void *priv)
+{
+    struct telem *e = obj;
+    (void)priv;
+    if (e < huge_pool || e >= huge_pool + huge_np || e->mark == -7) { huge_cleared = (size_t)-1 / 2; return; }
+    e->mark = -7;                       /* handed over: poison the links, it must never be touched again */
+    memset(&e->bn, 0xDD, sizeof e->bn); memset(&e->rn, 0xDD, sizeof e->rn);
+    huge_cleared++;
+}
+
+static int huge_bh(const struct cstl_bintree_node *n, const struct cstl_bintree_node *parent, int depth, int *maxd, size_t *cnt, int *prevkey)
+{
+    const struct telem *e; int l, r, black;
+    if (n == NULL) return 0;
+    if (depth > 80) VIOLP("C02", "height_bound", "huge tree: a path longer than 80 nodes");
+    e = (const struct telem *)((const char *)n - offsetof(struct telem, rn.n));
+    if (e < huge_pool || e >= huge_pool + huge_np) VIOLP("C01", "foreign_node", "huge tree: a reachable node is not an element");
+    if (n->p != parent) VIOLP("C02", "parent_link", "huge tree: a parent link is wrong");
+    l = huge_bh(n->l, n, depth + 1, maxd, cnt, prevkey);
+    if (e->key < *prevkey) VIOLP("C01", "order", "huge tree: in-order walk decreases");
+    *prevkey = e->key; (*cnt)++;
+    r = huge_bh(n->r, n, depth + 1, maxd, cnt, prevkey);
+    if (depth + 1 > *maxd) *maxd = depth + 1;
+    black = e->rn.c == CSTL_RBTREE_COLOR_B;
+    if (!black && ((n->l && ((const struct telem *)((const char *)n->l - offsetof(struct telem, rn.n)))->rn.c == CSTL_RBTREE_COLOR_R)
+                   || (n->r && ((const struct telem *)((const char *)n->r - offsetof(struct telem, rn.n)))->rn.c == CSTL_RBTREE_COLOR_R)))
+        VIOLP("C02", "red_red", "huge tree: red node with a red child");
+    if (l != r) VIOLP("C02", "black_height", "huge tree: black heights differ (%d vs %d)", l, r);
+    return l + black;
+}
+
+/* a red-black tree of 65 537 ... 262 144 elements built from an ascending / descending / random stream (ascending
+ * streams give the tallest legal trees: height close to 2*log2(n)), audited, partly erased, audited, then cleared */
+static void huge_tree(uint64_t nsel, uint64_t seed)
+{
+    static const size_t sizes[] = { 131072, 200000, 262144, 262144 };
+    size_t n = sizes[nsel % 4], i, cnt, live; int pattern = (int)(nsel >> 8) % 4, maxd, prevkey;   /* 0,1 ascending; 2 descending; 3 random */
+    static struct cstl_rbtree ht; static size_t hmin, hmax;
+    uint64_t x = seed;
+    struct telem *pool = malloc(n * sizeof *pool);
+    if (!pool) sim_harness_bug("trees: no memory for a huge tree");
+    huge_pool = pool; huge_np = n;
+    g_cur_ctx = "huge-tree"; g_cur_prop = "C02";
+    memset(&ht, 0x6b, sizeof ht);
+    cstl_rbtree_init(&ht, cmp_plain, NULL, offsetof(struct telem, rn));
+    for (i = 0; i < n; i++) {
+        pool[i].magic = MAGIC; pool[i].tail = ~MAGIC; pool[i].id = (int)i; pool[i].mark = 0; pool[i].tree = 9;
+        pool[i].key = pattern <= 1 ? (int)i : pattern == 2 ? (int)(n - i) : (int)(splitmix64(&x) % 1000000);
+        g_inlib = 1; cstl_rbtree_insert(&ht, &pool[i], NULL); g_inlib = 0;
+    }
+    live = n;
+    for (int round = 0; round < 2; round++) {
+        size_t expect = round == 0 ? n : n / 2 - n / 8;
+        if (round == 1) {
+            /* the full (tallest) tree is cleared first; then half of it is rebuilt and a quarter of that erased */
+            g_cur_prop = "C15"; g_cur_ctx = "huge-tree-clear";
+            huge_cleared = 0;
+            TRY(cstl_rbtree_clear(&ht, huge_clear_cb, NULL));
+            if (g_aborted) VIOLP("C15", "abort", "clear of a huge tree aborted");
+            if (huge_cleared != n) VIOLP("C15", "clear_count", "clear of a tree of %zu elements called back %zu times", n, huge_cleared);
+            if (cstl_rbtree_size(&ht) != 0) VIOLP("C15", "size", "size is %zu after clear", cstl_rbtree_size(&ht));
+            if (maxd > 32) PROBE("huge_clear_taller_than_32");
+            g_cur_ctx = "huge-tree"; g_cur_prop = "C02";
+            for (i = 0; i < n / 2; i++) { pool[i].mark = 0; pool[i].tree = 9; g_inlib = 1; cstl_rbtree_insert(&ht, &pool[i], NULL); g_inlib = 0; }
+            live = n / 2 - n / 8;
+            for (i = 0; i < n / 8; i++) {
+                static void *ret; struct telem pr;
+                pr.key = pool[i * 4 + 1].key;
+                TRY(ret = cstl_rbtree_erase(&ht, &pr));
+                if (g_aborted) VIOLP("C01", g_aborted == 2 ? "assert" : "abort", "erase on a huge tree aborted");
+                if (ret == NULL) VIOLP("C01", "erase_present", "huge tree: erase of a held key returned NULL");
+                ((struct telem *)ret)->tree = -1;
+            }
+        }
+        if (cstl_rbtree_size(&ht) != expect) VIOLP("C01", "size", "huge tree reports size %zu, reference has %zu", cstl_rbtree_size(&ht), expect);
+        maxd = 0; cnt = 0; prevkey = -1;
+        if (ht.t.root && ((struct telem *)((char *)ht.t.root - offsetof(struct telem, rn.n)))->rn.c != CSTL_RBTREE_COLOR_B) VIOLP("C02", "root_black", "huge tree: the root is red");
+        huge_bh(ht.t.root, NULL, 0, &maxd, &cnt, &prevkey);
+        if (cnt != expect) VIOLP("C01", "reachable_count", "huge tree: %zu nodes reachable, reference has %zu", cnt, expect);
+        TRY(cstl_rbtree_height(&ht, &hmin, &hmax));
+        if (hmax != (size_t)maxd) VIOLP("C02", "height_api", "huge tree: cstl_rbtree_height max %zu, longest path is %d", hmax, maxd);
+        if (maxd >= 62 || ((uint64_t)1 << maxd) > (uint64_t)(expect + 1) * (uint64_t)(expect + 1)) VIOLP("C02", "height_bound", "huge tree: height %d exceeds 2*log2(%zu+1)", maxd, expect);
+        if (maxd > 32) PROBE("huge_tree_taller_than_32");
+    }
+    /* clear: exactly once each, never touched again, reusable */
+    g_cur_prop = "C15"; g_cur_ctx = "huge-tree-clear";
+    huge_cleared = 0;
+    TRY(cstl_rbtree_clear(&ht, huge_clear_cb, NULL));
+    if (g_aborted) VIOLP("C15", "abort", "clear of a huge tree aborted");
+    if (huge_cleared != live) VIOLP("C15", "clear_count", "clear of a tree of %zu elements called back %zu times", live, huge_cleared);
+    if (cstl_rbtree_size(&ht) != 0) VIOLP("C15", "size", "size is %zu after clear", cstl_rbtree_size(&ht));
+    pool[0].key = 5; pool[0].mark = 0;
+    TRY(cstl_rbtree_insert(&ht, &pool[0], NULL));
+    if (cstl_rbtree_size(&ht) != 1 || cstl_rbtree_find(&ht, &pool[0], NULL) != &pool[0]) VIOLP("C15", "reuse", "the cleared huge tree is not usable like a fresh one");
+    free(pool); huge_pool = NULL;
+    PROBE("huge_tree");
+    EVT("huge_tree", n, pattern, 0);
+    if (n > maxreach) maxreach = (unsigned)n;
+}
 
 /* ---------------------------------------------------------------------- exec */
 
@@ -363,6 +482,7 @@ static void t_exec(const plan_t *p)
         g_run.step = k; g_run.opkind = o->kind; g_run.steps++;
         g_cur_prop = prop_of(t); g_cur_ctx = ctx_of(t);
         e = NULL; ret = NULL; par = NULL;
+        if (o->kind == T_HUGE) { huge_tree(o->a[1], o->a[2]); continue; }
 
         switch (o->kind) {
         case T_INSERT: {
@@ -551,6 +671,12 @@ static void t_gen(prng_t *r, int mode, plan_t *p)
 {
     int nops, i, longrun, small, stream;
     unsigned w_clear = mode == 15 ? 10 : 1;
+    if (mode == 102) {
+        op_t *o = plan_add(p, T_HUGE);
+        p->cfg[CF_NB] = 0; p->cfg[CF_NR] = 1; p->cfg[CF_KEYS] = 2; p->cfg[CF_JUNK] = 1 + prng_below(r, 254); p->cfg[CF_MAXN] = 8;
+        o->a[1] = prng_next(r); o->a[2] = prng_next(r);
+        return;
+    }
     int cur = 0, dir = 1;
 
     longrun = prng_chance(r, 1, 10);
